@@ -7,12 +7,19 @@ VERIF = os.path.dirname(os.path.dirname(os.path.abspath(__file__)))
 sys.path.insert(0, os.path.join(VERIF, "tools"))
 from mutants import MUTANTS
 name, prop, dest = sys.argv[1:4]
-m = [x for x in MUTANTS if x["name"] == name][0]
 S = "/tmp/xcm-mut"
+if not os.path.isdir(S):
+    subprocess.run("git -C /repo worktree add -f --detach %s HEAD" % S, shell=True, check=True)
 subprocess.run("git -C %s checkout -q --detach $(git -C /repo rev-parse HEAD) && git -C %s checkout -- ." % (S, S), shell=True, check=True)
-p = os.path.join(S, m["file"]); src = open(p).read()
-assert src.count(m["old"]) == m.get("count", 1)
-open(p, "w").write(src.replace(m["old"], m["new"]))
+if name.startswith("revert:"):
+    # undo one fix: commit in the scratch tree
+    subprocess.run("git -C %s revert --no-commit %s" % (S, name[7:]), shell=True, check=True)
+    p = None
+else:
+    m = [x for x in MUTANTS if x["name"] == name][0]
+    p = os.path.join(S, m["file"]); src = open(p).read()
+    assert src.count(m["old"]) == m.get("count", 1)
+    open(p, "w").write(src.replace(m["old"], m["new"]))
 try:
     r = subprocess.run("cd %s && XCM_SRC=%s ./check %s --tier quick" % (VERIF, S, prop), shell=True, stdout=subprocess.PIPE, text=True)
     mm = re.search(r"VIOLATION property=\S+ replay=(\S+)", r.stdout)
@@ -23,6 +30,9 @@ try:
     r2 = subprocess.run("cd %s && XCM_SRC=%s ./check %s --replay %s" % (VERIF, S, prop, dest), shell=True, stdout=subprocess.PIPE, text=True)
     print("on reverted tree:", "FAILS" if r2.returncode else "passes(!)", [l for l in r2.stdout.splitlines() if "FAILED" in l or "ERROR" in l][:1])
 finally:
-    open(p, "w").write(src)
+    if p:
+        open(p, "w").write(src)
+    else:
+        subprocess.run("git -C %s revert --abort; git -C %s reset -q --hard" % (S, S), shell=True)
 r3 = subprocess.run("cd %s && ./check %s --replay %s" % (VERIF, prop, dest), shell=True, stdout=subprocess.PIPE, text=True)
 print("on /repo:", "passes" if r3.returncode == 0 else "FAILS(!)")
